@@ -690,6 +690,23 @@ def rule_value_identity(db: ProgramDB) -> List[Instance]:
                              f"two different elements of one flattened collection are one value for the result caches and the duplicate suppression - "
                              f"and_(r < 0, r != -1) over [-1, -2] returns (s, -1), or_(r > 5, r < 0) loses rows" if by_value else
                              f"`{unparse(a)}`: source of the identifier not in the accepted table"), line=a.lineno))
+            # an identifier the wrapped object carries is believed only of the package's own objects (a type test), not of anything that
+            # happens to have - or to answer for - an attribute of that name
+            if isinstance(v, ast.Attribute) and v.attr == "_id_":
+                from ..boolexpr import guards_of
+                gs = guards_of(a, pi.node.body) or []
+                typed = [g for g, pol in gs if pol and isinstance(g, ast.Call) and dotted(g.func) == "isinstance" and len(g.args) == 2
+                         and unparse(g.args[0]) == unparse(v.value)
+                         and all(db.class_by_name.get(unparse(t).split(".")[-1]) for t in (g.args[1].elts if isinstance(g.args[1], ast.Tuple) else [g.args[1]]))]
+                probed = [g for g, pol in gs if pol and any(isinstance(c, ast.Call) and dotted(c.func) in ("hasattr", "getattr") for c in ast.walk(g))]
+                okp = bool(typed)
+                out.append(inst("VALUE-IDENTITY", HOLDS if okp else VIOLATION, pi, "HashedValue.__post_init__[carried identifier: only of the package's own objects]",
+                                f"`{unparse(a)}` under `{unparse(typed[0])}`" if okp else
+                                f"`{unparse(a)}` is reached for any object that has - or answers for - an attribute `_id_`" +
+                                (f" (`{unparse(probed[0])}`)" if probed else "") +
+                                ": user objects with a field of that name and equal values, or with a `__getattr__` that answers every name, are ONE value for "
+                                "the domains, the result caches and the duplicate filters - a domain of distinct objects collapses (let(W, [W(_id_=1), W(_id_=1)]) "
+                                "ranges over one object)", line=a.lineno))
     if n_src == 0:
         raise AnalysisError("HashedValue.__post_init__: no assignment of the identifier found")
     out.append(inst("VALUE-IDENTITY", HOLDS if hashed_by_id else VIOLATION, h, "HashedValue.__hash__[the identifier]",
@@ -741,7 +758,13 @@ def rule_row_not_retained(db: ProgramDB) -> List[Instance]:
                 if isinstance(e, ast.Attribute):
                     if isinstance(e.value, ast.Name) and e.value.id == "self":
                         return e
-                    return None
+                    return stored_origin(e.value, depth, seen)
+                if isinstance(e, ast.Call) and isinstance(e.func, ast.Attribute) and e.func.attr in ("setdefault", "get", "__getitem__"):
+                    # an element of a kept mapping, by method: self.__dict__.setdefault('memo', {}), self.memo.get(key)
+                    r = stored_origin(e.func.value, depth, seen)
+                    return r and ast.Subscript(value=e.func.value, slice=e.args[0] if e.args else ast.Constant(value=None), ctx=ast.Load())
+                if isinstance(e, ast.IfExp):
+                    return stored_origin(e.body, depth, seen) or stored_origin(e.orelse, depth, seen)
                 return None
             for y in own_nodes(m.node):
                 if not (isinstance(y, ast.Yield) and y.value is not None):
